@@ -93,10 +93,10 @@ Qed.
 Definition sent (s : st) (g : N) : N := match lp s g with LSending _ => cnt s g - 1 | _ => cnt s g end.
 
 Record Inv (s : st) : Prop := mkInv {
-  i_hist : hist s = written s ++ q s;
+  i_hist : hist s = written s ++ heldp (fp s) ++ q s;
   i_req_pre : req s = true -> prefix (pre_req s) (hist s);
   i_done : fp s = Done -> prefix (pre_req s) (written s);
-  i_drain_req : fp s = Drain \/ fp s = Done -> req s = true;
+  i_drain_req : fp s = Drain \/ fp s = Done \/ (exists e, fp s = HoldD e) -> req s = true;
   i_fl_req : req s = true <-> (fl s <> FNone /\ fl s <> FCalled);
   i_ret_done : fl s = FReturned true -> fp s = Done;
   i_retd : incl (retd s) (hist s);
@@ -111,24 +111,38 @@ Record Inv (s : st) : Prop := mkInv {
 Lemma Inv_init : Inv init.
 Proof.
   constructor; cbn; intros; try discriminate; try contradiction; try reflexivity; try (intros ? []); try exact I.
-  - destruct H as [H | H]; discriminate.
+  - destruct H as [H | [H | [e H]]]; discriminate.
   - split; [discriminate | intros [H _]; now contradiction H].
 Qed.
 
 Lemma take_inv s e p nx s' :
-  Inv s -> take s e p nx = Some s' -> (nx = Top \/ nx = Drain) -> (nx = Drain -> p = Drain) -> Inv s'.
+  Inv s -> take s e p nx = Some s' -> (nx = HoldT e \/ (nx = HoldD e /\ p = Drain)) -> Inv s'.
 Proof.
-  intros I Hs Hnx Hdr. unfold take in Hs.
+  intros I Hs Hnx. unfold take in Hs.
   destruct (q s) as [|e' r] eqn:Q. { destruct (fp s); discriminate. }
   destruct (_ && _) eqn:C in Hs; [|discriminate]. inversion Hs; subst s'; clear Hs.
-  apply andb_true_iff in C. destruct C as [Cp _].
+  apply andb_true_iff in C. destruct C as [Cp Ce]. apply entry_eqb_eq in Ce. subst e'.
   destruct I as [H1 H2 H3 H4 H5 H6 H7 H8 H9 H10 H11 H12 H13]. rewrite Q in H1.
+  assert (HP : heldp (fp s) = []) by (destruct (fp s), p; try discriminate; reflexivity). rewrite HP in H1. cbn in H1.
+  assert (HN : heldp nx = [e]) by (destruct Hnx as [-> | [-> _]]; reflexivity).
   constructor; cbn; auto.
-  - rewrite H1, <- app_assoc. reflexivity.
-  - destruct Hnx; subst nx; discriminate.
-  - intros [E | E]; [|destruct Hnx; subst nx; discriminate]. subst nx. rewrite (Hdr eq_refl) in Cp.
-    apply H4. destruct (fp s); try discriminate. now left.
+  - rewrite HN. exact H1.
+  - destruct Hnx as [-> | [-> _]]; discriminate.
+  - intros [E | [E | [x E]]]; try (destruct Hnx as [-> | [-> _]]; discriminate).
+    destruct Hnx as [-> | [_ ->]]; [discriminate|]. apply H4. left. destruct (fp s); try discriminate. reflexivity.
   - intros F. specialize (H6 F). rewrite H6 in Cp. destruct p; discriminate.
+Qed.
+
+Lemma write_inv cap s e s' : Inv s -> step cap s (Write e) = Some s' -> Inv s'.
+Proof.
+  intros I Hs. unfold step, gstep in Hs.
+  destruct I as [H1 H2 H3 H4 H5 H6 H7 H8 H9 H10 H11 H12 H13].
+  destruct (fp s) as [| | | |e'|e'] eqn:P; try discriminate; (destruct (entry_eqb e e') eqn:C; [|discriminate]);
+    apply entry_eqb_eq in C; subst e'; inversion Hs; subst s'; clear Hs; cbn in H1; constructor; cbn; auto; try discriminate.
+  all: try (rewrite H1, <- app_assoc; reflexivity).
+  all: try (intros [X | [X | [x X]]]; discriminate).
+  all: try (intros X; specialize (H6 X); discriminate).
+  intros _. apply H4. right. right. now exists e.
 Qed.
 
 Lemma sent_upd_other s g x lp' cnt' :
@@ -154,7 +168,7 @@ Proof.
     inversion Hs; subst s'; clear Hs.
     destruct I as [H1 H2 H3 H4 H5 H6 H7 H8 H9 H10 H11 H12 H13]. destruct (H11 _ _ L) as [Eg En].
     constructor; cbn; auto.
-    + rewrite H1, app_assoc. reflexivity.
+    + rewrite H1, <- !app_assoc. reflexivity.
     + intros R. apply prefix_app. auto.
     + intros x Hin. apply in_or_app. left. now apply H7.
     + intros F x Hin. apply in_or_app. left. now apply H8.
@@ -188,7 +202,7 @@ Proof.
     + assert (R : req s = false). { destruct (req s) eqn:R; [|reflexivity]. exfalso. destruct (proj1 H5 eq_refl) as [_ X]. congruence. }
       constructor; cbn; auto; try discriminate.
       * intros _. apply prefix_refl.
-      * intros D. assert (X : req s = true) by (apply H4; now right). congruence.
+      * intros D. assert (X : req s = true) by (apply H4; right; now left). congruence.
       * split; [intros _; split; discriminate | reflexivity].
     + constructor; cbn; auto; try discriminate.
       split; [intros _; split; discriminate | intros _; apply H5; split; discriminate].
@@ -198,25 +212,26 @@ Proof.
       inversion Hs; subst s'; clear Hs; constructor; cbn; auto; try discriminate.
     all: try (split; [intros _; split; discriminate | intros _; apply H5; split; discriminate]).
     intros X. inversion X; subst done. cbn in C. destruct (fp s); try discriminate. reflexivity.
-  - (* PollTake *) eapply take_inv; eauto; intros; discriminate.
+  - (* PollTake *) eapply take_inv; eauto.
   - (* PollEmpty *)
     destruct (fp s) eqn:P; try discriminate. destruct (q s) eqn:Q; try discriminate. inversion Hs; subst s'; clear Hs.
     destruct I as [H1 H2 H3 H4 H5 H6 H7 H8 H9 H10 H11 H12 H13]. constructor; cbn; auto; try discriminate.
-    + rewrite H1, Q. reflexivity.
-    + intros [X | X]; discriminate.
+    + rewrite H1, P, Q. reflexivity.
+    + intros [X | [X | [x X]]]; discriminate.
     + intros X. specialize (H6 X). congruence.
-  - (* InnerTake *) eapply take_inv; eauto; intros; discriminate.
+  - (* InnerTake *) eapply take_inv; eauto.
   - (* InnerSync *)
     destruct (fp s) eqn:P; try discriminate. destruct (req s) eqn:R; [|discriminate]. inversion Hs; subst s'; clear Hs.
     destruct I as [H1 H2 H3 H4 H5 H6 H7 H8 H9 H10 H11 H12 H13]. constructor; cbn; auto; try discriminate.
+    + rewrite H1, P. reflexivity.
     + split; [intros _; apply H5; exact R | reflexivity].
     + intros X. specialize (H6 X). congruence.
   - (* DrainTake *) eapply take_inv; eauto.
   - (* DrainDone *)
     destruct (fp s) eqn:P; try discriminate. destruct (q s) eqn:Q; try discriminate. inversion Hs; subst s'; clear Hs.
-    destruct I as [H1 H2 H3 H4 H5 H6 H7 H8 H9 H10 H11 H12 H13]. constructor; cbn; auto.
-    + rewrite H1, Q. reflexivity.
-    + intros _. rewrite Q, app_nil_r in H1. rewrite <- H1. apply H2. apply H4. now left.
+    destruct I as [H1 H2 H3 H4 H5 H6 H7 H8 H9 H10 H11 H12 H13]. rewrite P, Q in H1. cbn in H1. constructor; cbn; auto.
+    + intros _. rewrite app_nil_r in H1. rewrite <- H1. apply H2. apply H4. now left.
+  - (* Write *) apply (write_inv cap s e s' I). exact Hs.
 Qed.
 
 (* ---------- runs ---------- *)
@@ -396,8 +411,8 @@ Theorem writes_per_goroutine_order cap ls s : run cap init ls = Some s ->
   forall a e1 b e2 c, writes_of ls = a ++ e1 :: b ++ e2 :: c -> eg e1 = eg e2 -> en e1 < en e2.
 Proof. intros H. apply ord_split. eapply writes_ordered; eauto. Qed.
 
-(* nothing is lost on the way: what was enqueued is written or still queued, in queue order *)
-Theorem conservation cap ls s : run cap init ls = Some s -> hist s = writes_of ls ++ q s.
+(* nothing is lost on the way: what was enqueued is written, held by the flusher for its Write, or still queued, in order *)
+Theorem conservation cap ls s : run cap init ls = Some s -> hist s = writes_of ls ++ held s ++ q s.
 Proof. intros H. destruct (run_init_ghost _ _ _ H) as [<- _]. apply (i_hist _ (reach_inv _ _ _ H)). Qed.
 
 Lemma writes_of_app a b : writes_of (a ++ b) = writes_of a ++ writes_of b.
@@ -454,7 +469,7 @@ Proof.
   assert (P2 : prefix (hist m2) (hist s)).
   { destruct (step_ghost _ _ _ _ S2) as (_ & _ & Pa). destruct (run_ghost _ _ _ _ R3) as (_ & _ & Pb). eapply prefix_trans; eauto. }
   assert (Px : prefix (x ++ [e2]) (hist s)).
-  { rewrite (conservation _ _ _ H), W. exists (y ++ q s). rewrite <- !app_assoc. reflexivity. }
+  { rewrite (conservation _ _ _ H), W. exists (y ++ held s ++ q s). rewrite <- !app_assoc. reflexivity. }
   destruct (prefix_comparable _ _ _ P2 Px) as [P | P].
   - apply prefix_snoc_inv in P. destruct P as [P | P].
     + apply (prefix_incl _ _ P). apply (prefix_incl _ _ P12). exact E1.
@@ -466,13 +481,16 @@ Qed.
 Theorem flusher_not_blocked_after_request cap s :
   req s = true -> fp s <> Done -> exists l s', flusher_label l /\ step cap s l = Some s'.
 Proof.
-  intros R D. unfold step, gstep, take. destruct (fp s) eqn:P; [| | |contradiction]; destruct (q s) as [|e r] eqn:Q.
-  - exists PollEmpty. eexists. split; [exact I | reflexivity].
-  - exists (PollTake e). rewrite entry_eqb_refl. eexists. split; [exact I | reflexivity].
+  intros R D. unfold step, gstep, take. destruct (fp s) as [| | | |h|h] eqn:P; [| | |contradiction| |].
+  - destruct (q s) as [|e r] eqn:Q.
+    + exists PollEmpty. eexists. split; [exact I | reflexivity].
+    + exists (PollTake e). rewrite entry_eqb_refl. eexists. split; [exact I | reflexivity].
   - exists InnerSync. rewrite R. eexists. split; [exact I | reflexivity].
-  - exists (InnerTake e). rewrite entry_eqb_refl. eexists. split; [exact I | reflexivity].
-  - exists DrainDone. eexists. split; [exact I | reflexivity].
-  - exists (DrainTake e). rewrite entry_eqb_refl. eexists. split; [exact I | reflexivity].
+  - destruct (q s) as [|e r] eqn:Q.
+    + exists DrainDone. eexists. split; [exact I | reflexivity].
+    + exists (DrainTake e). rewrite entry_eqb_refl. eexists. split; [exact I | reflexivity].
+  - exists (Write h). rewrite entry_eqb_refl. eexists. split; [exact I | reflexivity].
+  - exists (Write h). rewrite entry_eqb_refl. eexists. split; [exact I | reflexivity].
 Qed.
 
 (* ---------- the specification machine accepts every visible trace of the model ---------- *)
@@ -558,10 +576,10 @@ Proof. intros I. apply ord_NoDup. apply (i_ord _ I). Qed.
 Record Sim (s : st) (a : ast) : Prop := mkSim {
   r_fly : forall x, In x (a_fly a) <-> exists g, lp s g = LSending x \/ lp s g = LSent x;
   r_next : forall g, lookupN g (a_next a) = cnt s g;
-  r_unw : forall x, lookupE x (a_unw a) <> None <-> (In x (q s) \/ exists g, lp s g = LSending x);
+  r_unw : forall x, lookupE x (a_unw a) <> None <-> (In x (pend s) \/ exists g, lp s g = LSending x);
   r_unw_t : forall x c, In (x, c) (a_unw a) -> c < a_t a;
-  r_ret : forall x r, In (x, r) (a_ret a) -> In x (q s) /\ In x (retd s) /\ r < a_t a;
-  r_fifo : forall l1 e l2, q s = l1 ++ e :: l2 -> forall e1 c r1, In e1 l2 ->
+  r_ret : forall x r, In (x, r) (a_ret a) -> In x (pend s) /\ In x (retd s) /\ r < a_t a;
+  r_fifo : forall l1 e l2, pend s = l1 ++ e :: l2 -> forall e1 c r1, In e1 l2 ->
            lookupE e (a_unw a) = Some c -> In (e1, r1) (a_ret a) -> c < r1;
   r_fl : match fl s, a_fl a with
          | FNone, ANone => True
@@ -588,29 +606,45 @@ Proof.
   apply app_inj_tail in H. destruct H as [-> ->]. now exists l2'.
 Qed.
 
-Lemma sim_take s a e p nx s' :
-  Inv s -> Sim s a -> take s e p nx = Some s' ->
+Lemma pend_hist s : Inv s -> hist s = written s ++ pend s.
+Proof. intros I. apply (i_hist _ I). Qed.
+Lemma pend_NoDup s : Inv s -> NoDup (pend s).
+Proof. intros I. pose proof (hist_NoDup _ I) as N. rewrite (pend_hist _ I) in N. eapply NoDup_app_r; eauto. Qed.
+
+(* a state change that leaves [pend] and everything the relation mentions alone, and does not reach Done *)
+Lemma sim_same_pend s a s' :
+  Sim s a -> fp s <> Done -> pend s' = pend s -> lp s' = lp s -> cnt s' = cnt s -> retd s' = retd s -> fl s' = fl s ->
+  pre_call s' = pre_call s -> Sim s' a.
+Proof.
+  intros [S1 S2 S3 S4 S5 S6 S7 S8] ND Ep El Ec Er Ef Epc.
+  constructor; rewrite ?Ep, ?El, ?Ec, ?Er, ?Ef, ?Epc; auto. intros X. exfalso. auto.
+Qed.
+
+Lemma sim_write cap s a e s' :
+  Inv s -> Sim s a -> step cap s (Write e) = Some s' ->
   exists a', astep a (EWrite e) = Some a' /\ Sim s' a'.
 Proof.
-  intros I S Hs. unfold take in Hs. destruct (q s) as [|e' r] eqn:Q. { destruct (fp s); discriminate. }
-  destruct (_ && _) eqn:C in Hs; [|discriminate]. inversion Hs; subst s'; clear Hs.
-  apply andb_true_iff in C. destruct C as [Cp Ce]. apply entry_eqb_eq in Ce. subst e'.
-  assert (ND : fp s <> Done) by (intros X; rewrite X in Cp; destruct p; discriminate).
+  intros I S Hs. unfold step, gstep in Hs.
+  assert (X : pend s = e :: q s /\ fp s <> Done /\ pend s' = q s /\ lp s' = lp s /\ cnt s' = cnt s /\ retd s' = retd s /\
+              fl s' = fl s /\ pre_call s' = pre_call s /\ fp s' <> Done).
+  { unfold pend. destruct (fp s) as [| | | |e'|e'] eqn:P; try discriminate; (destruct (entry_eqb e e') eqn:C; [|discriminate]);
+      apply entry_eqb_eq in C; subst e'; inversion Hs; subst s'; cbn; repeat split; discriminate. }
+  destruct X as (Q & ND & Q' & El & Ec & Er & Ef & Epc & ND'). clear Hs.
   destruct S as [S1 S2 S3 S4 S5 S6 S7 S8].
-  assert (NQ : NoDup (e :: r)). { rewrite <- Q. pose proof (hist_NoDup _ I) as N. rewrite (i_hist _ I) in N. eapply NoDup_app_r; eauto. }
+  assert (NQ : NoDup (e :: q s)). { rewrite <- Q. apply pend_NoDup; auto. }
   destruct (lookupE e (a_unw a)) as [c|] eqn:LE.
   2:{ exfalso. apply (proj2 (S3 e)); [left; rewrite Q; now left | exact LE]. }
   assert (AD : a_done a = false). { destruct (a_done a); [exfalso; apply ND; auto | reflexivity]. }
   assert (FB : forallb (fun p0 => entry_eqb e (fst p0) || (c <? snd p0)) (a_ret a) = true).
   { apply forallb_forall. intros [e1 r1] Hin. cbn. destruct (entry_eqb e e1) eqn:E; [reflexivity|]. cbn.
     apply N.ltb_lt. destruct (S5 _ _ Hin) as (Hq & _ & _). rewrite Q in Hq. destruct Hq as [<- | Hq]; [rewrite entry_eqb_refl in E; discriminate|].
-    apply (S6 [] e r Q e1 c r1 Hq LE Hin). }
+    apply (S6 [] e (q s) Q e1 c r1 Hq LE Hin). }
   unfold astep. rewrite LE, AD, FB. cbn. eexists. split; [reflexivity|].
-  constructor; cbn; auto.
+  constructor; cbn; rewrite ?Q', ?El, ?Ec, ?Er, ?Ef, ?Epc; auto.
   - intros x. rewrite lookupE_removeE. destruct (entry_eqb e x) eqn:E.
     + apply entry_eqb_eq in E. subst x. split; [intros H; now contradiction H|]. intros [Hin | [g L]]; exfalso.
       * inversion NQ; auto.
-      * apply (sending_not_hist _ _ _ I L). rewrite (i_hist _ I), Q. apply in_or_app. right. now left.
+      * apply (sending_not_hist _ _ _ I L). rewrite (pend_hist _ I), Q. apply in_or_app. right. now left.
     + rewrite S3, Q. split; intros [H | H]; auto; [destruct H as [<- | H]; [rewrite entry_eqb_refl in E; discriminate | now left] | left; now right].
   - intros x c0 Hin. apply In_removeE in Hin. destruct Hin as [Hin _]. pose proof (S4 _ _ Hin). lia.
   - intros x r0 Hin. apply In_removeE in Hin. destruct Hin as [Hin Ne]. destruct (S5 _ _ Hin) as (Hq & Hr & Ht).
@@ -622,11 +656,15 @@ Proof.
   - intros X. rewrite X in AD. discriminate.
 Qed.
 
-Lemma sim_internal_fp s a nfp :
-  Sim s a -> fp s <> Done ->
-  Sim (mk (q s) nfp (req s) (fl s) (lp s) (cnt s) (hist s) (written s) (retd s) (pre_call s) (pre_req s)) a.
+Lemma sim_recv s a e p nx s' :
+  Sim s a -> take s e p nx = Some s' -> heldp nx = [e] -> Sim s' a.
 Proof.
-  intros [S1 S2 S3 S4 S5 S6 S7 S8] ND. constructor; cbn; auto. intros X. exfalso. auto.
+  intros S Hs HN. unfold take in Hs. destruct (q s) as [|e' r] eqn:Q. { destruct (fp s); discriminate. }
+  destruct (_ && _) eqn:C in Hs; [|discriminate]. inversion Hs; subst s'; clear Hs.
+  apply andb_true_iff in C. destruct C as [Cp Ce]. apply entry_eqb_eq in Ce. subst e'.
+  apply (sim_same_pend s a); auto; cbn.
+  - intros X. rewrite X in Cp. destruct p; discriminate.
+  - unfold pend. cbn. rewrite HN, Q. destruct (fp s), p; try discriminate; reflexivity.
 Qed.
 
 Lemma sim_step cap s a l s' :
@@ -640,14 +678,14 @@ Proof.
   - (* LogCall *)
     destruct (lp s (eg e)) eqn:L; try discriminate. destruct (en e =? cnt s (eg e)) eqn:C; [|discriminate].
     apply N.eqb_eq in C. inversion Hs; subst s'; clear Hs.
-    destruct S as [S1 S2 S3 S4 S5 S6 S7 S8].
+    destruct S as [S1 S2 S3 S4 S5 S6 S7 S8]; unfold pend in *.
     assert (B : busy (eg e) (a_fly a) = false).
     { apply busy_false. intros x Hin Eg. apply S1 in Hin. destruct Hin as [g H]. pose proof (inflight_eg _ _ _ I H) as X.
       rewrite <- X, Eg, L in H. destruct H; discriminate. }
     unfold astep. rewrite B, S2, C, N.eqb_refl. cbn. eexists. split; [reflexivity|].
     assert (NS : forall g x, lp s g = LSending x \/ lp s g = LSent x -> g <> eg e).
     { intros g x H ->. rewrite L in H. destruct H; discriminate. }
-    constructor; cbn; auto.
+    constructor; unfold pend; cbn; auto.
     + intros x. split.
       * intros [<- | Hin]; [exists (eg e); left; apply upd_same|]. apply S1 in Hin. destruct Hin as [g H]. exists g.
         rewrite upd_other; [exact H | eapply NS; eauto].
@@ -678,7 +716,7 @@ Proof.
   - (* Enq *)
     destruct (lp s g) eqn:L; try discriminate. destruct (N.of_nat (length (q s)) <? cap); [|discriminate].
     inversion Hs; subst s'; clear Hs.
-    destruct S as [S1 S2 S3 S4 S5 S6 S7 S8]. constructor; cbn; auto.
+    destruct S as [S1 S2 S3 S4 S5 S6 S7 S8]; unfold pend in *. constructor; unfold pend; cbn; auto.
     + intros x. rewrite S1. split; intros [g' H]; unfold upd in *.
       * destruct (N.eq_dec g' g) as [-> | Ne].
         -- exists g. rewrite N.eqb_refl. rewrite L in H. destruct H as [H | H]; inversion H. now right.
@@ -687,29 +725,29 @@ Proof.
         -- apply N.eqb_eq in E. subst g'. destruct H as [H | H]; inversion H; subst. exists g. now left.
         -- now exists g'.
     + intros x. rewrite S3. split.
-      * intros [H | [g' H]]; [left; apply in_or_app; now left|].
+      * intros [H | [g' H]]; [left; rewrite app_assoc; apply in_or_app; now left|].
         destruct (N.eq_dec g' g) as [-> | Ne].
-        -- rewrite L in H. inversion H; subst. left. apply in_or_app. right. now left.
+        -- rewrite L in H. inversion H; subst. left. rewrite app_assoc. apply in_or_app. right. now left.
         -- right. exists g'. rewrite upd_other; auto.
       * intros [H | [g' H]].
-        -- apply in_app_or in H. destruct H as [H | [<- | []]]; [now left | right; now exists g].
+        -- rewrite app_assoc in H. apply in_app_or in H. destruct H as [H | [<- | []]]; [now left | right; now exists g].
         -- unfold upd in H. destruct (g' =? g); [discriminate | right; now exists g'].
-    + intros x r Hin. destruct (S5 _ _ Hin) as (A & B & C). repeat split; auto. apply in_or_app. now left.
-    + intros l1 e0 l2 Hq e1 c r1 Hin1 L0 Hin. apply snoc_decomp in Hq. destruct Hq as [-> | [l2' [-> Hq]]]; [contradiction|].
+    + intros x r Hin. destruct (S5 _ _ Hin) as (A & B & C). repeat split; auto. rewrite app_assoc. apply in_or_app. now left.
+    + intros l1 e0 l2 Hq e1 c r1 Hin1 L0 Hin. rewrite app_assoc in Hq. apply snoc_decomp in Hq. destruct Hq as [-> | [l2' [-> Hq]]]; [contradiction|].
       apply in_app_or in Hin1. destruct Hin1 as [Hin1 | [<- | []]].
       * eapply S6; eauto.
       * exfalso. destruct (S5 _ _ Hin) as (A & _ & _). apply (sending_not_hist _ _ _ I L). rewrite (i_hist _ I). apply in_or_app. now right.
   - (* LogRet *)
     destruct (lp s (eg e)) as [| |e'] eqn:L; try discriminate. destruct (entry_eqb e e') eqn:C; [|discriminate].
     apply entry_eqb_eq in C. subst e'. inversion Hs; subst s'; clear Hs.
-    destruct S as [S1 S2 S3 S4 S5 S6 S7 S8].
+    destruct S as [S1 S2 S3 S4 S5 S6 S7 S8]; unfold pend in *.
     assert (M : mem_entry e (a_fly a) = true). { apply mem_entry_true. apply S1. exists (eg e). now right. }
     unfold astep. rewrite M. eexists. split; [reflexivity|].
-    assert (EQ : In e (q s) \/ lookupE e (a_unw a) = None).
+    assert (EQ : In e (heldp (fp s) ++ q s) \/ lookupE e (a_unw a) = None).
     { destruct (lookupE e (a_unw a)) eqn:LX; [|now right]. left.
       assert (X : lookupE e (a_unw a) <> None) by (rewrite LX; discriminate). apply S3 in X. destruct X as [X | [g X]]; [exact X|].
       exfalso. pose proof (inflight_eg _ _ _ I (or_introl X)) as Y. rewrite <- Y, L in X. discriminate. }
-    constructor; cbn; auto.
+    constructor; unfold pend; cbn; auto.
     + intros x. rewrite filter_In, S1. split.
       * intros [[g H] Ne]. exists g. rewrite upd_other; [exact H|]. intros ->. rewrite L in H. destruct H as [H | H]; inversion H; subst.
         rewrite entry_eqb_refl in Ne. discriminate.
@@ -720,7 +758,7 @@ Proof.
       * destruct (g =? eg e) eqn:E; [apply N.eqb_eq in E; subst g; rewrite L in H; discriminate | exact H].
       * destruct (g =? eg e); [discriminate | exact H].
     + intros x c Hin. pose proof (S4 _ _ Hin). lia.
-    + intros x r Hin. assert (Old : In (x, r) (a_ret a) -> In x (q s) /\ In x (e :: retd s) /\ r < a_t a + 1).
+    + intros x r Hin. assert (Old : In (x, r) (a_ret a) -> In x (heldp (fp s) ++ q s) /\ In x (e :: retd s) /\ r < a_t a + 1).
       { intros H. destruct (S5 _ _ H) as (A & B & C). repeat split; auto; [now right | lia]. }
       destruct (lookupE e (a_unw a)) eqn:LX; [|auto]. apply in_app_or in Hin. destruct Hin as [Hin | [X | []]]; [auto|].
       inversion X; subst. destruct EQ as [EQ | EQ]; [|discriminate]. repeat split; [exact EQ | now left | lia].
@@ -732,23 +770,23 @@ Proof.
       { intros x r Hin. destruct (lookupE e (a_unw a)); [|now left]. apply in_app_or in Hin. destruct Hin as [Hin | [X | []]]; [now left|]. inversion X. now right. }
       destruct (fl s), (a_fl a); auto; destruct S7 as [Hf Hp]; (split; [lia|]); intros x r Hin Hle; apply Sub in Hin; (destruct Hin as [Hin | ->]; [eauto | lia]).
   - (* FlushCall *)
-    destruct S as [S1 S2 S3 S4 S5 S6 S7 S8].
+    destruct S as [S1 S2 S3 S4 S5 S6 S7 S8]; unfold pend in *.
     assert (W : forall x c, In (x, c) (a_unw a) -> c < a_t a + 1) by (intros x c Hin; pose proof (S4 _ _ Hin); lia).
-    assert (Rr : forall x r, In (x, r) (a_ret a) -> In x (q s) /\ In x (retd s) /\ r < a_t a + 1).
+    assert (Rr : forall x r, In (x, r) (a_ret a) -> In x (heldp (fp s) ++ q s) /\ In x (retd s) /\ r < a_t a + 1).
     { intros x r Hin. destruct (S5 _ _ Hin) as (A & B & C'). repeat split; auto. lia. }
     destruct (fl s) eqn:F; try discriminate; inversion Hs; subst s'; clear Hs;
       unfold astep; destruct (a_fl a) as [|f|f] eqn:AF; try contradiction;
-      (eexists; split; [reflexivity|]); constructor; cbn; auto.
+      (eexists; split; [reflexivity|]); constructor; unfold pend; cbn; auto.
     + split; [lia|]. intros x r Hin _. apply (S5 _ _ Hin).
     + destruct S7 as [Hf Hp]. split; [lia | exact Hp].
     + destruct S7 as [Hf Hp]. split; [lia | exact Hp].
   - (* Request *)
-    destruct S as [S1 S2 S3 S4 S5 S6 S7 S8].
-    destruct (fl s) eqn:F; try discriminate; inversion Hs; subst s'; clear Hs; constructor; cbn; auto.
+    destruct S as [S1 S2 S3 S4 S5 S6 S7 S8]; unfold pend in *.
+    destruct (fl s) eqn:F; try discriminate; inversion Hs; subst s'; clear Hs; constructor; unfold pend; cbn; auto.
   - (* FlushRet *)
-    destruct S as [S1 S2 S3 S4 S5 S6 S7 S8].
+    destruct S as [S1 S2 S3 S4 S5 S6 S7 S8]; unfold pend in *.
     assert (W : forall x c, In (x, c) (a_unw a) -> c < a_t a + 1) by (intros x c Hin; pose proof (S4 _ _ Hin); lia).
-    assert (Rr : forall x r, In (x, r) (a_ret a) -> In x (q s) /\ In x (retd s) /\ r < a_t a + 1).
+    assert (Rr : forall x r, In (x, r) (a_ret a) -> In x (heldp (fp s) ++ q s) /\ In x (retd s) /\ r < a_t a + 1).
     { intros x r Hin. destruct (S5 _ _ Hin) as (A & B & C'). repeat split; auto. lia. }
     assert (FR : fl s = FRequested \/ fl s = FLRequested) by (destruct (fl s); try discriminate; auto).
     assert (Rq : req s = true) by (apply (i_fl_req _ I); destruct FR as [FR | FR]; rewrite FR; split; discriminate).
@@ -769,23 +807,24 @@ Proof.
       { apply forallb_forall. intros [x r] Hin. cbn. apply N.ltb_lt. destruct (N.lt_ge_cases f r) as [Hlt | Hge]; [exact Hlt|]. exfalso.
         pose proof (Hp _ _ Hin Hge) as PC. destruct (S5 _ _ Hin) as (Hq & _ & _).
         pose proof (prefix_incl _ _ (i_done _ I P) _ (i_pc2 _ I Rq _ PC)) as Hw.
-        pose proof (hist_NoDup _ I) as N. rewrite (i_hist _ I) in N. eapply NoDup_app_disjoint; eauto. }
-      rewrite FB. eexists. split; [reflexivity|]. constructor; cbn; auto.
+        pose proof (hist_NoDup _ I) as N. rewrite (i_hist _ I), P in N. eapply NoDup_app_disjoint; eauto. }
+      rewrite FB. eexists. split; [reflexivity|]. constructor; unfold pend; cbn; auto.
       destruct Hn as [-> | ->]; (split; [lia | exact Hp]).
-    + eexists. split; [reflexivity|]. constructor; cbn; auto.
+    + eexists. split; [reflexivity|]. constructor; unfold pend; cbn; auto.
       destruct Hn as [-> | ->]; (split; [lia | exact Hp]).
-  - (* PollTake *) eapply sim_take; eauto.
+  - (* PollTake *) apply (sim_recv s a e Top (HoldT e) s' S Hs eq_refl).
   - (* PollEmpty *)
     destruct (fp s) eqn:P; try discriminate. destruct (q s) eqn:Q; try discriminate. inversion Hs; subst s'; clear Hs.
-    rewrite <- Q. apply sim_internal_fp; [exact S | congruence].
-  - (* InnerTake *) eapply sim_take; eauto.
+    apply (sim_same_pend s a); auto; [congruence | unfold pend; cbn; rewrite P, Q; reflexivity].
+  - (* InnerTake *) apply (sim_recv s a e Inner (HoldT e) s' S Hs eq_refl).
   - (* InnerSync *)
     destruct (fp s) eqn:P; try discriminate. destruct (req s) eqn:R; [|discriminate]. inversion Hs; subst s'; clear Hs.
-    rewrite <- R. apply sim_internal_fp; [exact S | congruence].
-  - (* DrainTake *) eapply sim_take; eauto.
+    apply (sim_same_pend s a); auto; [congruence | unfold pend; cbn; rewrite P; reflexivity].
+  - (* DrainTake *) apply (sim_recv s a e Drain (HoldD e) s' S Hs eq_refl).
   - (* DrainDone *)
     destruct (fp s) eqn:P; try discriminate. destruct (q s) eqn:Q; try discriminate. inversion Hs; subst s'; clear Hs.
-    rewrite <- Q. apply sim_internal_fp; [exact S | congruence].
+    apply (sim_same_pend s a); auto; [congruence | unfold pend; cbn; rewrite P, Q; reflexivity].
+  - (* Write *) apply (sim_write cap s a e s' I S). exact Hs.
 Qed.
 
 Lemma sim_run cap ls : forall s a s', Inv s -> Sim s a -> run cap s ls = Some s' ->
@@ -816,13 +855,13 @@ Definition e10 := mkE 1 0 0.
 (* two goroutines, two writers; the flusher is between its two selects when the last entry and the request arrive,
    and its select picks the request: the drain loop writes the entry before the acknowledgement *)
 Definition sched_fixed : list label :=
-  [LogCall e00; Enq 0; LogRet e00; PollTake e00; LogCall e10; PollEmpty; LogCall e01; Enq 0; Enq 1; LogRet e10; LogRet e01;
-   FlushCall; Request; InnerSync; DrainTake e01; DrainTake e10; DrainDone; FlushRet true].
+  [LogCall e00; Enq 0; LogRet e00; PollTake e00; Write e00; LogCall e10; PollEmpty; LogCall e01; Enq 0; Enq 1; LogRet e10; LogRet e01;
+   FlushCall; Request; InnerSync; DrainTake e01; Write e01; DrainTake e10; Write e10; DrainDone; FlushRet true].
 Example sched_fixed_runs : exists s, run 4 init sched_fixed = Some s /\ written s = [e00; e01; e10] /\ fl s = FReturned true /\ q s = [].
 Proof. eexists. vm_compute. repeat split. Qed.
 Example sched_fixed_instance :
   exists l1 l2, sched_fixed = l1 ++ FlushCall :: l2 ++ FlushRet true :: [] /\ rets_of l1 = [e00; e10; e01].
-Proof. exists (firstn 11 sched_fixed), (firstn 5 (skipn 12 sched_fixed)). vm_compute. split; reflexivity. Qed.
+Proof. exists (firstn 12 sched_fixed), (firstn 7 (skipn 13 sched_fixed)). vm_compute. split; reflexivity. Qed.
 Example sched_fixed_accepted : accepts (visible sched_fixed) = true.
 Proof. vm_compute. reflexivity. Qed.
 
@@ -830,7 +869,7 @@ Proof. vm_compute. reflexivity. Qed.
    returns on the acknowledgement with two returned entries unwritten — and the specification machine rejects
    exactly that trace *)
 Definition sched_unfixed : list label :=
-  [LogCall e00; Enq 0; LogRet e00; PollTake e00; LogCall e10; PollEmpty; LogCall e01; Enq 0; Enq 1; LogRet e10; LogRet e01;
+  [LogCall e00; Enq 0; LogRet e00; PollTake e00; Write e00; LogCall e10; PollEmpty; LogCall e01; Enq 0; Enq 1; LogRet e10; LogRet e01;
    FlushCall; Request; InnerSync; FlushRet true].
 Example before_fix_loses_entries :
   exists s, grun false 4 init sched_unfixed = Some s /\ fl s = FReturned true /\ written s = [e00] /\
@@ -923,7 +962,7 @@ Proof.
   pose proof (proj1 (step_cnt _ _ _ _ S) (eg e)). lia.
 Qed.
 Example logged_after_ack_witness :
-  exists s, run 4 init [LogCall e00; Enq 0; LogRet e00; FlushCall; Request; PollTake e00; PollEmpty; InnerSync; DrainDone;
+  exists s, run 4 init [LogCall e00; Enq 0; LogRet e00; FlushCall; Request; PollTake e00; Write e00; PollEmpty; InnerSync; DrainDone;
                         FlushRet true; LogCall e01; Enq 0; LogRet e01] = Some s
             /\ fp s = Done /\ q s = [e01] /\ written s = [e00] /\ retd s = [e01; e00].
 Proof. eexists. vm_compute. repeat split. Qed.
@@ -931,7 +970,8 @@ Proof. eexists. vm_compute. repeat split. Qed.
 (* ---------- bounded progress: how many flusher steps the flush needs ---------- *)
 
 Definition pending (s : st) : nat := (length (pre_req s) - length (written s))%nat.
-Definition weight (s : st) : nat := (pending s + match fp s with Top | Inner => 1 | _ => 0 end)%nat.
+Definition pcw (p : fpc) : nat := match p with Top | Drain => 1 | Inner => 2 | _ => 0 end.
+Definition weight (s : st) : nat := (2 * pending s + pcw (fp s))%nat.
 
 Lemma prefix_length a b : prefix a b -> (length a <= length b)%nat.
 Proof. intros [c ->]. rewrite app_length. lia. Qed.
@@ -946,19 +986,19 @@ Lemma step_weight cap s l s' : Inv s -> req s = true -> step cap s l = Some s' -
   (pending s' = 0%nat \/ (weight s' + (if is_flusher l then 1 else 0) <= weight s)%nat).
 Proof.
   intros I R Hs.
-  assert (E : q s = [] -> pending s = 0%nat).
-  { intros Q. unfold pending. pose proof (i_req_pre _ I R) as P. rewrite (i_hist _ I), Q, app_nil_r in P.
+  assert (E : q s = [] -> heldp (fp s) = [] -> pending s = 0%nat).
+  { intros Q Hh. unfold pending. pose proof (i_req_pre _ I R) as P. rewrite (i_hist _ I), Q, Hh, !app_nil_r in P.
     apply prefix_length in P. lia. }
   assert (F : fl s <> FCalled) by (apply (i_fl_req _ I); exact R).
   destruct l; unfold step, gstep, take in Hs; unfold weight in *; destruct (fp s) eqn:P; cbn in Hs.
   all: repeat match type of Hs with
        | context [match ?x with _ => _ end] => destruct x eqn:?; try discriminate
        | context [if ?x then _ else _] => destruct x eqn:?; try discriminate
-       end; try congruence; inversion Hs; subst; clear Hs; unfold weight, pending in *; cbn in *;
+       end; try congruence; inversion Hs; subst; clear Hs; unfold pending in *; cbn in *;
        (split; [reflexivity | split; [assumption || reflexivity |]]);
        rewrite ?app_length; cbn;
        try (right; lia);
-       try (left; specialize (E eq_refl); lia).
+       try (left; specialize (E eq_refl eq_refl); lia).
   all: destruct (length (pre_req s) - length (written s))%nat eqn:D; [left; lia | right; lia].
 Qed.
 
@@ -974,12 +1014,13 @@ Proof.
   - right. cbn [flusher_steps]. lia.
 Qed.
 
-(* Once FlushLogger has signalled, [length of the queue at that moment + 1] steps of the flusher suffice to hand every
+(* Once FlushLogger has signalled, [2 * length of the queue at that moment + 2] steps of the flusher (a receive and a
+   Write per entry) suffice to hand every
    entry whose call had returned to its writer — however many entries other goroutines log meanwhile. (Whether that
    fits into FlushLogger's one second depends on the scheduler and on the writers: not modelled.) *)
 Theorem flush_bounded cap l1 l2 s1 s2 s :
   run cap init l1 = Some s1 -> req s1 = false -> step cap s1 Request = Some s2 -> run cap s2 l2 = Some s ->
-  (length (q s1) + 1 <= flusher_steps l2)%nat ->
+  (2 * length (q s1) + 2 <= flusher_steps l2)%nat ->
   forall e, In e (rets_of l1) -> In e (writes_of (l1 ++ Request :: l2)).
 Proof.
   intros R1 NR S2 R2 L e He.
@@ -989,8 +1030,8 @@ Proof.
     exfalso. assert (X : req s1 = true) by (apply (i_fl_req _ I1); rewrite F; split; discriminate). congruence. }
   destruct X as (Rq & Pr & Wr & Fp & Qq).
   destruct (run_weight _ _ _ _ I2 Rq R2) as (P & W).
-  assert (W2 : (weight s2 <= length (q s1) + 1)%nat).
-  { unfold weight, pending. rewrite Pr, Wr, Fp, (i_hist _ I1), app_length. destruct (fp s1); lia. }
+  assert (W2 : (weight s2 <= 2 * length (q s1) + 2)%nat).
+  { unfold weight, pending. rewrite Pr, Wr, Fp, (i_hist _ I1), !app_length. destruct (fp s1); cbn; lia. }
   assert (P0 : pending s = 0%nat) by (destruct W as [W | W]; [exact W | unfold weight in W at 1; lia]).
   pose proof (run_inv _ _ _ _ I2 R2) as I.
   assert (Rs : req s = true).
@@ -999,15 +1040,15 @@ Proof.
     - rewrite run_cons in R2. destruct (step cap s2 l) as [m|] eqn:E; [|discriminate].
       destruct (step_weight _ _ _ _ I2 Rq E) as (_ & R' & _). apply (IH m R' (Inv_step _ _ _ _ I2 E) R2). }
   assert (PW : prefix (pre_req s) (written s)).
-  { apply (prefix_of_shorter _ _ (hist s)); [apply (i_req_pre _ I Rs) | rewrite (i_hist _ I); now exists (q s) | unfold pending in P0; lia]. }
+  { apply (prefix_of_shorter _ _ (hist s)); [apply (i_req_pre _ I Rs) | rewrite (i_hist _ I); now exists (heldp (fp s) ++ q s) | unfold pending in P0; lia]. }
   assert (R12 : run cap init (l1 ++ Request :: l2) = Some s) by (rewrite run_app, R1, run_cons, S2; exact R2).
   destruct (run_init_ghost _ _ _ R12) as [<- _]. apply (prefix_incl _ _ PW). rewrite P, Pr.
   apply (i_retd _ I1). destruct (run_init_ghost _ _ _ R1) as [_ ->]. apply in_rev in He. exact He.
 Qed.
 
 Example flush_bounded_instance :
-  exists s1 s2 s, run 4 init (firstn 12 sched_fixed) = Some s1 /\ req s1 = false /\ step 4 s1 Request = Some s2 /\
-    run 4 s2 (skipn 13 sched_fixed) = Some s /\ length (q s1) = 2%nat /\ flusher_steps (skipn 13 sched_fixed) = 4%nat.
+  exists s1 s2 s, run 4 init (firstn 13 sched_fixed) = Some s1 /\ req s1 = false /\ step 4 s1 Request = Some s2 /\
+    run 4 s2 (skipn 14 sched_fixed) = Some s /\ length (q s1) = 2%nat /\ flusher_steps (skipn 14 sched_fixed) = 6%nat.
 Proof. do 3 eexists. vm_compute. repeat split. Qed.
 
 (* ---------- what acceptance means: an accepted trace satisfies the property ---------- *)
@@ -1298,7 +1339,7 @@ Definition flush_complete_any_call_statement : Prop := forall cap l1 l2 l3 s,
   forall e, In e (rets_of l1) -> In e (writes_of (l1 ++ FlushCall :: l2)).
 
 Definition sched_second : list label :=
-  [LogCall e00; Enq 0; LogRet e00; FlushCall; Request; PollTake e00; PollEmpty; InnerSync; DrainDone; FlushRet true;
+  [LogCall e00; Enq 0; LogRet e00; FlushCall; Request; PollTake e00; Write e00; PollEmpty; InnerSync; DrainDone; FlushRet true;
    LogCall e01; Enq 0; LogRet e01].
 
 Theorem second_flush_refuted :
